@@ -1,12 +1,33 @@
-(** Dispatch table of the executable model: entry number -> wire function.
-    Used both by the extracted binary and by [vm_compute] cross-checks. *)
+(** Dispatch table of the executable model: entry number (100 * property +
+    sub-entry) -> wire function.  Used both by the extracted binary and by the
+    [vm_compute] cross-checks. *)
 From Coq Require Import ZArith List.
-From PLV Require Import Base.Wire Util.LineNo.
+From PLV Require Import Base.Wire.
+From PLV Require Entry.E01 Entry.E02 Entry.E03 Entry.E04 Entry.E05 Entry.E06 Entry.E07 Entry.E08 Entry.E09 Entry.E10 Entry.E11 Entry.E12 Entry.E13 Entry.E14 Entry.E15 Entry.E16 Entry.E17 Entry.E18 Entry.E19 Entry.E20.
 Import ListNotations.
 Open Scope Z_scope.
 
 Definition dispatch (id : Z) (inp : list Z) : list Z :=
-  match id with
-  | 20 => entry_lineno inp
+  match id / 100 with
+  | 1 => E01.entry (id mod 100) inp
+  | 2 => E02.entry (id mod 100) inp
+  | 3 => E03.entry (id mod 100) inp
+  | 4 => E04.entry (id mod 100) inp
+  | 5 => E05.entry (id mod 100) inp
+  | 6 => E06.entry (id mod 100) inp
+  | 7 => E07.entry (id mod 100) inp
+  | 8 => E08.entry (id mod 100) inp
+  | 9 => E09.entry (id mod 100) inp
+  | 10 => E10.entry (id mod 100) inp
+  | 11 => E11.entry (id mod 100) inp
+  | 12 => E12.entry (id mod 100) inp
+  | 13 => E13.entry (id mod 100) inp
+  | 14 => E14.entry (id mod 100) inp
+  | 15 => E15.entry (id mod 100) inp
+  | 16 => E16.entry (id mod 100) inp
+  | 17 => E17.entry (id mod 100) inp
+  | 18 => E18.entry (id mod 100) inp
+  | 19 => E19.entry (id mod 100) inp
+  | 20 => E20.entry (id mod 100) inp
   | _ => bad_input
   end.
